@@ -18,7 +18,7 @@ def obligations(tier):
     mv = {"quick": (3, 5), "thorough": (5, 8)}[tier]
     return [
         Ob("C07.pipe/literal", "pipe", "c_literal", {}, t, FN_PIPE,
-           "22 catalogued literals (keywords, ; -- # inside, = with blanks, %, ., empty) x 6 literal positions (DEFAULT, column COMMENT, table COMMENT, ENUM value, CHECK IN list, LOCATION) - both symbolic",
+           "37 catalogued literals (keywords, ; -- # inside incl. ' # ' between blanks, = with blanks, %, ., doubled quotes, empty) x 8 literal positions (DEFAULT, column COMMENT, table COMMENT, ENUM value, CHECK IN list, LOCATION) - both symbolic",
            known="respaced-literal"),
         Ob("C07.pipe/number", "pipe", "c_number", {}, t, FN_PIPE, "9 catalogued numerals incl. leading zeros and 2**63, last / not last column (symbolic)"),
         Ob("C07.val/default_literal", "drv", "c_default", {"VF_DKIND": 1, "VF_MAXV": mv[0]}, t, FN_ACT, f"DEFAULT '<text>': any text of 1..{mv[0]} characters without a quote, through the real p_default / p_defcolumn"),
